@@ -23,7 +23,7 @@ CHECKS = {
 }
 
 # properties whose checks are registered (theorems proved, check green on the unchanged tree)
-READY = set()
+READY = {'C16'}
 
 NOT_YET = {
 }
